@@ -386,10 +386,7 @@ func checkBytes(kind string, compressed bool, dat []byte, vout uint32) {
 	mode := modeStr(compressed)
 	rep := map[string]interface{}{"kind": "bytes", "compressed": compressed, "hex": hex.EncodeToString(dat), "vout": vout}
 	r.Eval("bytes-"+mode+":"+kind, mode+string(dat))
-	md := o.MustAsk("dec " + mode + " " + vlib.Hex(dat))
-	mo := o.MustAsk(fmt.Sprintf("one %s %s %d", mode, vlib.Hex(dat), vout))
-	r.Hit("bytes:dec=" + strings.Fields(md)[0])
-	r.Hit("bytes:one=" + strings.Fields(mo)[0])
+	// an absurd output count makes both sides allocate the whole slice (the model: a list): not run
 	if len(dat) >= 32 {
 		rest := dat[32:]
 		_, n := btc.VULe(rest)
@@ -399,6 +396,10 @@ func checkBytes(kind string, compressed bool, dat []byte, vout uint32) {
 			return
 		}
 	}
+	md := o.MustAsk("dec " + mode + " " + vlib.Hex(dat))
+	mo := o.MustAsk(fmt.Sprintf("one %s %s %d", mode, vlib.Hex(dat), vout))
+	r.Hit("bytes:dec=" + strings.Fields(md)[0])
+	r.Hit("bytes:one=" + strings.Fields(mo)[0])
 	var il, ol string
 	if md != "hang" {
 		if !withTimeout(func() { rec, p := implDec(dat); il = decLine(rec, p) }) {
